@@ -601,6 +601,27 @@ def probe_gran_guard(bdir, wd):
     return {t: int(r == "3") for t, r in res.items()}, res
 
 
+def probe_measure_always(bdir, wd):
+    """does p2bin run its measuring pass (MeasureFile) although both -r bounds are given?  (it does since the repair of
+    `explicit-range-ignores-granularity`: the pass yields MaxGran).  Seen from outside: a granularity-2 record of 4 words
+    in the explicit window 0-3 gives 8 bytes when MaxGran was measured, 4 bytes otherwise."""
+    d = os.path.join(wd, "pm")
+    os.makedirs(d, exist_ok=True)
+    open(os.path.join(d, "in.p"), "wb").write(code_file([rec_long(0x70, 1, 2, 0, bytes(range(8)))], b"AS"))
+    run_limited(bdir, "p2bin", ["-q", "-r", "0-3", "in.p", "out.bin"], d, "r", 2, fsize_mb=2)
+    try:
+        n = os.path.getsize(os.path.join(d, "out.bin"))
+    except OSError:
+        n = -1
+    subprocess.call(["rm", "-rf", d])
+    return n == 8
+
+
+def model_tool(tid, measure_always):
+    """tool id under which the Lean reader model classifies the run"""
+    return "p2bina" if (tid == "p2bin" and measure_always) else tid
+
+
 def probe_slack(bdir, wd):
     """bytes each tool's processing pass wants behind a data record (model constant `slack`), measured on the real
     binaries: a data record followed by `$00` + n creator bytes is accepted from n = slack - 1 on"""
@@ -700,6 +721,7 @@ def run(args):
         guard, guard_res = probe_gran_guard(bdir, wd)
         notes.append("granularity-0 guard probe (witness file, per tool): %s -> model flags granCheck=%s" % (guard_res, guard))
         slack = probe_slack(bdir, wd)
+        meas_always = probe_measure_always(bdir, wd)
         notes.append("length-test probe (bytes wanted behind a data record): %s" % slack)
         files = []
         for f in sorted(os.listdir(cdir)) if os.path.isdir(cdir) else []:
@@ -731,7 +753,7 @@ def run(args):
                     continue
                 jobs2.append(j)
             ocs = parallel(lambda kj: run_tool_case(bd, wd, kj[0], kj[1][1], kj[1][2], kj[1][3], files[kj[1][0]]["data"], cpu_tool), list(enumerate(jobs2)))
-            reqs = ["%s %d %d %s %s" % (tid, guard[tid], slack[tid], oc.token(), common.hexs(files[fi]["data"]) or "-") for (fi, tid, _b, _m), oc in zip(jobs2, ocs)]
+            reqs = ["%s %d %d %s %s" % (model_tool(tid, meas_always), guard[tid], slack[tid], oc.token(), common.hexs(files[fi]["data"]) or "-") for (fi, tid, _b, _m), oc in zip(jobs2, ocs)]
             answers = common.driver("c03", reqs, timeout=1800) if drv_ok and reqs else []
             for (fi, tid, binary, mk), oc, ans in zip(jobs2, ocs, answers):
                 fc = files[fi]
@@ -841,5 +863,6 @@ def replay(args):
             print(oc.err.decode("latin-1")[-1500:])
             guard, _ = probe_gran_guard(bdir, wd)
             slack = probe_slack(bdir, wd)
-            print(common.driver("c03", ["%s %d %d %s %s" % (tid, guard[tid], slack[tid], oc.token(), data.hex() or "-")])[0])
+            meas_always = probe_measure_always(bdir, wd)
+            print(common.driver("c03", ["%s %d %d %s %s" % (model_tool(tid, meas_always), guard[tid], slack[tid], oc.token(), data.hex() or "-")])[0])
     return 0
